@@ -6,8 +6,8 @@ package main
 
 import (
 	"fmt"
-	"os"
 	"go/token"
+	"os"
 	"regexp"
 	"strings"
 )
@@ -57,6 +57,7 @@ type VC struct {
 	trusted  map[string]bool // assumptions this VC depended on
 	inputs   []namedTerm
 	noBind   int
+	defs     map[string]string // bound name -> defining term
 }
 
 func newVC(fn string) *VC {
@@ -106,6 +107,10 @@ func (vc *VC) Bind(hint string, s Sort, t string) string {
 		return t
 	}
 	n := vc.name(hint)
+	if vc.defs == nil {
+		vc.defs = map[string]string{}
+	}
+	vc.defs[n] = t
 	if s.IsArr() {
 		// array-valued (heap) terms get an opaque name so that they can occur in
 		// quantifier patterns
